@@ -174,6 +174,9 @@ def run_case(inp):
     cutoff, order, entry = float(inp["cutoff"]), int(inp["order"]), inp["entry"]
     r = np.random.default_rng(inp["seed"])
     img = r.normal(size=shape).astype(np.float32) + 0.7
+    if inp.get("dtype"):
+        # raw-count images and binary masks are filtered as the real numbers they hold
+        img = (np.round(img * 20) > 10) if inp["dtype"] == "bool" else np.round(img * 20 + (60 if inp["dtype"] == "uint8" else 0)).astype(inp["dtype"])
     viols = []
 
     def V(clause, desc):
@@ -209,6 +212,8 @@ def run_case(inp):
         if abs(float(out.mean()) - float(img.mean())) > 1e-4 * (1 + abs(float(img.mean()))):
             V("mean", f"mean changed from {img.mean():.6g} to {out.mean():.6g}")
         img2 = r.normal(size=shape).astype(np.float32)
+        if inp.get("dtype"):
+            return viols            # (linear combinations leave the integer type)
         lin = _apply(entry, (2.0 * img + 0.5 * img2).astype(np.float32), cutoff, order)
         comb = 2.0 * out + 0.5 * _apply(entry, img2, cutoff, order)
         if lin.shape == comb.shape and np.abs(lin - comb).max() > 1e-3:
@@ -235,6 +240,10 @@ def oracle(rng, thorough, deep=False, hints=None):
         for entry in (entries if it < 8 else entries[:2]):
             cases.append(dict(shape=list(shape), cutoff=float(rng.choice([0.2, 0.35, 0.5])), order=int(rng.choice([1, 2])),
                               entry=entry, seed=int(rng.integers(0, 10000)), history=[]))
+    for it, dt in enumerate(["int16", "uint8", "bool", "int8", "float64", "int32"][: 6 if (thorough or deep) else 4]):
+        for entry in ("pipe", "utils", "backend"):
+            cases.append(dict(shape=[7, 6, 8], cutoff=float(rng.choice([0.2, 0.35])), order=2, entry=entry, dtype=dt,
+                              seed=int(rng.integers(0, 10000)), history=[]))
     # always: a high-pass call with the same (shape, cutoff, order) right before the low-pass under test
     for hist, entry in ((["hp"], "utils"), (["pipe_hp"], "pipe"), (["hp_ft"], "utils_ft"), (["backend_hp"], "backend"),
                         (["hp", "lp", "hp", "hp"], "utils"), (["hp"], "pipe")):
